@@ -147,6 +147,32 @@ func raceSignature(report string) string {
 	return strings.Join(frames, " | ")
 }
 
+// raceInHarnessOnly: in every report both racing accesses (the top frame of each of the two
+// stacks) are made by the harness or the simulator itself, not by code under test or by a
+// library called from it. That is a defect of this machinery: harness error, never a violation.
+func raceInHarnessOnly(report string) bool {
+	n := 0
+	for _, rep := range strings.Split(report, "WARNING: DATA RACE")[1:] {
+		tops := 0
+		for _, block := range strings.Split(rep, "\n\n") {
+			first := strings.SplitN(strings.TrimLeft(block, "\n"), "\n", 3)
+			if len(first) < 2 || !(strings.Contains(first[0], " at 0x") && (strings.HasPrefix(first[0], "Read ") || strings.HasPrefix(first[0], "Write ") || strings.HasPrefix(first[0], "Previous "))) {
+				continue
+			}
+			top := strings.TrimSpace(first[1])
+			if !(strings.HasPrefix(top, "main.") || strings.HasPrefix(top, "simrt.")) {
+				return false
+			}
+			tops++
+		}
+		if tops < 2 {
+			return false
+		}
+		n++
+	}
+	return n > 0
+}
+
 // knownPoolSites: Get/Put site prefixes of the pools named by recorded known findings.
 func knownPoolSites() []string {
 	var out []string
@@ -417,6 +443,10 @@ func (c18Engine) Exec(c *Case, job *Job) *Result {
 				break
 			}
 		}
+	}
+	if obs.race != "" && raceInHarnessOnly(obs.race) {
+		res.Verdict, res.Msg = "harness-error", "data race between two accesses of the harness itself:\n"+trunc(obs.race, 2000)
+		return res
 	}
 	if obs.race != "" {
 		rs := raceSignature(obs.race)
